@@ -295,7 +295,15 @@ const c02Rule = "case = (set of distinct non-empty names incl. murmur3 prefix-co
 	"(every member via LookupByString/ByNode/BySegment/native Lookup, drawn non-members not found, MapIterator and native Iterator yield each entry exactly once, Length); " +
 	"non-trivial = sharded with at least one child shard; distinct by (builder, fanout, entry-count bucket, max shard depth, name classes)"
 
+// c02Past, when set by a property, is run on the freshly reified directory before the map check (a history the node
+// must be indifferent to); it returns a description for failure messages.
+type c02Past func(st *Store, dir datamodel.Node, root cid.Cid) string
+
 func c02OneCase(st *Store, es []entrySpec, how string, fanout int, nonMembers []string) (depth int, sharded bool, err error) {
+	return c02OneCasePast(st, es, how, fanout, nonMembers, nil)
+}
+
+func c02OneCasePast(st *Store, es []entrySpec, how string, fanout int, nonMembers []string, past c02Past) (depth int, sharded bool, err error) {
 	root, _, err := c02Build(st, es, how, fanout)
 	if err != nil {
 		return 0, false, fmt.Errorf("build (%s): %v", how, err)
@@ -334,8 +342,12 @@ func c02OneCase(st *Store, es []entrySpec, how string, fanout int, nonMembers []
 		if err != nil {
 			return depth, sharded, fmt.Errorf("reify (%s): %v", reifier, err)
 		}
+		hist := ""
+		if past != nil {
+			hist = past(st, dir, root)
+		}
 		if err := checkDirIsMapOpt(dir, want, nonMembers, len(es)%2 == 0); err != nil {
-			return depth, sharded, fmt.Errorf("%s builder, fanout %d, %d entries, via %s: %v", how, fanout, len(es), reifier, err)
+			return depth, sharded, fmt.Errorf("%s builder, fanout %d, %d entries, via %s %s: %v", how, fanout, len(es), reifier, hist, err)
 		}
 	}
 	return depth, sharded, nil
@@ -345,8 +357,7 @@ func TestC02_P_DirIsMap(t *testing.T) {
 	ev := newEvid(t, c02Rule)
 	maxN := scale(300, 3000)
 	rapid.Check(t, func(t *rapid.T) {
-		names, classes := genNames(t, nameOpts{Max: maxN})
-		fanout := genFanout(t)
+		names, classes, fanout := genNamesFanout(t, nameOpts{Max: maxN})
 		how := rapid.SampledFrom(c02Builders).Draw(t, "builder")
 		salt := rapid.IntRange(0, 50).Draw(t, "salt")
 		es := make([]entrySpec, len(names))
@@ -359,7 +370,18 @@ func TestC02_P_DirIsMap(t *testing.T) {
 		var depth int
 		var sharded bool
 		var err error
-		must(t, "directory build/read", func() { depth, sharded, err = c02OneCase(NewStore(), es, how, fanout, nonMembers) })
+		// one case in three: before the map is checked the node lives through operations that met unavailable shards
+		var past c02Past
+		if rapid.IntRange(0, 2).Draw(t, "faultyPast") == 0 {
+			past = func(st *Store, dir datamodel.Node, root cid.Cid) string {
+				tr, err := st.ShardTree(root)
+				if err != nil {
+					return ""
+				}
+				return "after " + faultyPast(t, st, dir, tr, names)
+			}
+		}
+		must(t, "directory build/read", func() { depth, sharded, err = c02OneCasePast(NewStore(), es, how, fanout, nonMembers, past) })
 		if err != nil {
 			t.Fatalf("C02: %v", err)
 		}
